@@ -879,8 +879,19 @@ func (c *SCtx) conjuncts(e *SExpr) []conjunct {
 	if e.Op == "bin" && e.Name == "&&" {
 		return append(c.conjuncts(e.Args[0]), c.conjuncts(e.Args[1])...)
 	}
+	if e.Op == "bin" && e.Name == "==>" {
+		rhs := c.conjuncts(e.Args[1])
+		if len(rhs) > 1 {
+			a := c.bool(e.Args[0])
+			for i := range rhs {
+				rhs[i].T = Implies(a, rhs[i].T)
+				rhs[i].Text = e.Args[0].String() + " ==> " + rhs[i].Text
+			}
+			return rhs
+		}
+	}
 	if e.Op == "call" {
-		if pf, ok := c.ex.p.cs.Pures[e.Name]; ok && len(pf.Params) == len(e.Args) && pf.Body.Op == "bin" && pf.Body.Name == "&&" {
+		if pf, ok := c.ex.p.cs.Pures[e.Name]; ok && len(pf.Params) == len(e.Args) && (pf.Body.Op == "bin" && (pf.Body.Name == "&&" || pf.Body.Name == "==>")) {
 			env := map[string]*Val{}
 			for k, v := range c.env {
 				if strings.Contains(v.T.S, "!q") {
